@@ -53,17 +53,17 @@ pub fn run(ctx: &Ctx) -> Outcome {
         first_fin.map(|k0| w.k >= k0).unwrap_or(false) && w.ptype != 4
     };
     // (1) close orders x loss of subsets of the closing packets, 3 cycles with a connection limit of 1
-    let scenarios: Vec<Scenario> = vec![lib::a2b_bulk(), lib::drop_close(), lib::fin_behind_data(), lib::both_ways(), lib::ping_pong(), lib::idle_shutdown()];
+    let scenarios: Vec<Scenario> = vec![lib::a2b_bulk(), lib::drop_close(), lib::fin_behind_data(), lib::both_ways(), lib::ping_pong(), lib::idle_shutdown(), lib::early_shutdown()];
     let n = scenarios.len();
     for base_scn in scenarios.iter().take(n) {
         let scn = prepare(base_scn.clone(), 1, 3);
-        let cfg = ExploreCfg { max_dev: ctx.tier.pick(2, 3), min_k: 2, fates: vec![Fate::Drop, Fate::Dup], eligible: &closing, judge: &judge_plan, max_runs: ctx.tier.pick(10_000, 400_000) };
+        let cfg = ExploreCfg { max_dev: ctx.tier.pick(2, 3), min_k: 2, fates: vec![Fate::Drop, Fate::Dup, Fate::Delay(300_000)], eligible: &closing, judge: &judge_plan, max_runs: ctx.tier.pick(40_000, 2_000_000) };
         let r = explore(ctx, &scn, &cfg);
         let mut p = Part::fe(&format!("duo-cycles:{}", scn.name));
         p.evaluations = r.runs;
         p.distinct_nontrivial = r.distinct_traces;
         p.distinct_outcomes = r.outcome_classes.len() as u64;
-        p.bound = format!("3 connect/transfer/close cycles on one socket pair with max_live_vsocks=1; all plans of <= {} drop/dup deviations on the packets from the first FIN on (any cycle); per level {:?}", r.completed_bound, r.per_level);
+        p.bound = format!("3 connect/transfer/close cycles on one socket pair with max_live_vsocks=1; all plans of <= {} drop/dup/300 ms delay deviations on the packets from the first FIN on (any cycle); per level {:?}", r.completed_bound, r.per_level);
         if let Some(c) = &r.capped {
             p.caps_hit.push(c.clone());
             p.exhaustive = false;
